@@ -60,6 +60,9 @@ structure AtSt where
   shut : Bool := false        -- a graceful shutdown is in progress (it stops fetching on purpose)
   savedShut : Bool := false
   expect : Bool := false      -- a retry must be scheduled before this event is over
+  fired : Bool := false       -- the start() Deferred of this run has fired
+  savedFired : Bool := false
+  expectFail : Bool := false  -- the attempt limit is reached: the start() Deferred must fail before this event is over
   bad : Bool := false
   deriving DecidableEq, Repr
 
@@ -68,11 +71,18 @@ instance : HasBad AtSt := ⟨AtSt.bad⟩
 /-- a fetch/offset request failed with kind `k` -/
 def atFail (limit : Nat) (reset : Option Int) (m : AtSt) (k : ErrKind) : AtSt :=
   { m with cf := m.cf + 1, inErr := true,
-           expect := limit == 0 && m.running && !m.shut && !(k == .outOfRange && reset.isNone) }
+           expect := limit == 0 && m.running && !m.shut && !(k == .outOfRange && reset.isNone),
+           -- (no `shut` condition: the code reports at the limit also while shutting down)
+           expectFail := limit != 0 && decide (m.cf + 1 ≥ limit) && m.running && !m.fired }
 
 def atStep (limit : Nat) (reset : Option Int) (m : AtSt) : Item → AtSt
-  | .ev (.start _) => { m with cf := 0, savedCf := m.cf, inErr := false, running := true, savedRunning := m.running }
-  | .ob .raisedRestart => { m with cf := m.savedCf, running := m.savedRunning }
+  | .ev (.start _) => { m with cf := 0, savedCf := m.cf, inErr := false, running := true, savedRunning := m.running,
+                               fired := false, savedFired := m.fired }
+  | .ob .raisedRestart => { m with cf := m.savedCf, running := m.savedRunning, fired := m.savedFired }
+  | .ob (.startFired r) =>
+    (match r with
+     | .err _ => { m with fired := true, expectFail := false }
+     | .ok _ => if m.expectFail then { m with bad := true } else { m with fired := true })
   | .ev .shutdown => { m with shut := true, savedShut := m.shut, inErr := false }
   | .ob (.act .shutdown) => { m with shut := true, savedShut := m.shut }
   | .ob .shutdownRejected => { m with shut := m.savedShut }
@@ -87,7 +97,7 @@ def atStep (limit : Nat) (reset : Option Int) (m : AtSt) : Item → AtSt
   | .ev _ => { m with inErr := false }
   | .ob (.setTimer .retry _) =>
     if m.inErr && limit != 0 && m.cf ≥ limit then { m with bad := true } else { m with expect := false }
-  | .ob (.probe _ _) => if m.expect then { m with bad := true } else m
+  | .ob (.probe _ _) => if m.expect || m.expectFail then { m with bad := true } else m
   | _ => m
 
 def attemptsOk (limit : Nat) (reset : Option Int) (tr : List Item) : Bool := accepts (atStep limit reset) {} tr
